@@ -143,6 +143,13 @@ func c07One(c *run.C, cd *codec.Codec, o codec.JSONOpts, s val.Stream) {
 		c.Violationf("invalid-output", "cborl:outside-subset", "cborl encoder used a feature outside its own subset: %v\nbytes=%s", rr.Features, hexs(buf))
 		return
 	}
+	if cd.Name == "ubjson" && rr.Features["char"] {
+		// no event denotes a character: OnByte is a number (JSON writes 65,
+		// CBOR the unsigned integer 65); an independent draft-12 decoder reads
+		// the char marker back as the character "A", not as that number
+		c.Violationf("mismatch", "ubjson:char-marker-for-number", "ubjson encoder wrote a char marker (C) for a numeric event: an independent decoder reads a character, not the stream's number\nbytes=%s\nstream=%s", hexs(buf), s)
+		return
+	}
 	want := val.Norm(cd.Name, expect, o.IgnoreInvalidFloat)
 	if d := val.Equal(want, rr.Values[0], val.Mode(cd.Name)); d != "" {
 		c.Violationf("mismatch", cd.Name+":value", "reference decoder reads another value from the %s encoder's output: %s\nbytes=%s\ntext=%q\nstream=%s", cd.Name, d, hexs(buf), clipb(buf), s)
